@@ -133,7 +133,7 @@ class History:
             with core.Guard():
                 out = m.evaluate_new_data(self.frames[di])
             arr = np.asarray(out.design_matrix)
-            self.results.append((arr, arr.copy()))
+            self.results.append((arr, arr.copy(), out, self._layout(out)))
             return fresh_tasks.observe_matrix(out)
 
         res = fresh_tasks.guarded(run)
@@ -166,8 +166,23 @@ class History:
 
     # -- invariants --------------------------------------------------------------------------------------
     @staticmethod
-    def _snapshot(dm):
-        return [None if m is None else np.array(m.design_matrix, copy=True) for m in (dm.response, dm.common, dm.group)]
+    def _layout(m):
+        """Slices and per-term views of a matrix object (what indexing by term name returns)."""
+        if m is None or not hasattr(m, "slices"):
+            return None
+        out = []
+        for name, sl in m.slices.items():
+            try:
+                view = np.array(m[name], copy=True).tolist()
+            except Exception as e:  # pylint: disable=broad-except
+                view = type(e).__name__
+            out.append((name, sl.start, sl.stop, view))
+        return out
+
+    @classmethod
+    def _snapshot(cls, dm):
+        return [None if m is None else np.array(m.design_matrix, copy=True) for m in (dm.response, dm.common, dm.group)] + \
+               [cls._layout(dm.common), cls._layout(dm.group)]
 
     def fail(self, clause, detail, key):
         self.failures.append((clause, detail, key))
@@ -182,10 +197,16 @@ class History:
                 if m is not None and not np.array_equal(np.asarray(m.design_matrix), s, equal_nan=True):
                     self.fail("training_matrix", f"after step {step} {self.ops[step]}: the {name} matrix of design {k} ({FORMULAS[fi]!r}) changed", name)
                     self.designs[k] = (fi, di, dm, self._snapshot(dm))
-        for i, (arr, cp) in enumerate(self.results):
+            if [self._layout(dm.common), self._layout(dm.group)] != snap[3:]:
+                self.fail("training_matrix", f"after step {step} {self.ops[step]}: slices / per-term views of design {k} ({FORMULAS[fi]!r}) changed", "layout")
+                self.designs[k] = (fi, di, dm, self._snapshot(dm))
+        for i, (arr, cp, obj, layout) in enumerate(self.results):
             if not np.array_equal(arr, cp, equal_nan=True):
                 self.fail("earlier_result", f"after step {step} {self.ops[step]}: result array #{i} returned earlier changed", "mutated")
-                self.results[i] = (arr, arr.copy())
+                self.results[i] = (arr, arr.copy(), obj, layout)
+            elif self._layout(obj) != layout:
+                self.fail("earlier_result", f"after step {step} {self.ops[step]}: slices / per-term views of result #{i} returned earlier changed", "layout")
+                self.results[i] = (arr, cp, obj, self._layout(obj))
         for i, (f, p) in enumerate(zip(self.frames, self.pristine)):
             same = list(f.columns) == list(p.columns) and f.index.equals(p.index) and f.dtypes.equals(p.dtypes) and f.attrs == p.attrs and f.equals(p)
             if not same:
